@@ -148,6 +148,44 @@ Theorem C05_accepted_shape : forall ex argv cwd p,
 Proof. exact accepted_shape. Qed.
 Print Assumptions C05_accepted_shape.
 
+(* static libraries.  The files that reach the key are: for every `-l static=NAME`, in order, the first hit of the
+   lookup in the `-L native=` / `-L all=` / `-L DIR` directories taken in COMMAND-LINE order ... *)
+Theorem C05_staticlibs_lookup : forall ex argv cwd p,
+  parse_arguments ex argv cwd = PROk p ->
+  exists s,
+    p_arguments p = map arg_pair (ps_args s) /\
+    p_staticlibs p = filter_map (find_staticlib ex (flat_map (native_dirs_of cwd) (ps_args s)))
+                                (flat_map static_names_of (ps_args s)).
+Proof. exact staticlibs_lookup. Qed.
+Print Assumptions C05_staticlibs_lookup.
+
+(* ... and that lookup returns exactly the archive rustc bundles (rustc_static_pick: the named assumption about rustc's
+   search order, lib<NAME>.a from the first directory in command-line order), provided no directory holds one of the
+   two other spellings the code also accepts *)
+Theorem C05_staticlib_search_order : forall ex dirs name,
+  alt_spelling_free ex dirs name = true -> find_staticlib ex dirs name = rustc_static_pick ex dirs name.
+Proof. exact find_staticlib_is_rustc_pick. Qed.
+Print Assumptions C05_staticlib_search_order.
+
+(* C05-S23 (recorded, open): without that proviso the statement is false — `alt/foo.lib` in an earlier directory is
+   hashed instead of `own/libfoo.a`, the archive rustc bundles *)
+Theorem C05_staticlib_alt_spelling_refuted :
+  exists (ex : bytes -> bool) dirs name,
+    find_staticlib ex dirs name <> rustc_static_pick ex dirs name /\ rustc_static_pick ex dirs name <> None.
+Proof.
+  exists (fun p => beq p (bs "/w/alt/foo.lib") || beq p (bs "/w/own/libfoo.a")), [bs "/w/alt"; bs "/w/own"], (bs "foo").
+  vm_compute. split; discriminate.
+Qed.
+Print Assumptions C05_staticlib_alt_spelling_refuted.
+
+(* C05-S24 (fixed, 5054560): a library given with modifiers, `-l static:+whole-archive=foo`, `-l static:-bundle=foo`, ...,
+   is looked up — and so hashed — exactly like `-l static=foo`, for every modifier string *)
+Theorem C05_staticlib_modifier_hashed : forall f modifiers name d,
+  static_names_of (AWithValue f LinkLibrary (VKind (bs "static:" ++ modifiers) name) d) = [name] /\
+  static_names_of (AWithValue f LinkLibrary (VKind (bs "static") name) d) = [name].
+Proof. exact static_modifiers_looked_up. Qed.
+Print Assumptions C05_staticlib_modifier_hashed.
+
 (* ---------- non-vacuity ---------- *)
 
 Example dep_paths_ok_example :
@@ -175,6 +213,16 @@ Proof. vm_compute. reflexivity. Qed.
 (* the --cfg pairs are sorted to the end, --extern is dropped, nothing separates the pieces *)
 Example example_arg_string :
   req_arg_string example_req = bs "--crate-namefoosrc/lib.rs--cfga--cfgb".
+Proof. vm_compute. reflexivity. Qed.
+
+(* the whole path: `-l static:+whole-archive=foo -L native=own` with own/libfoo.a present hashes /w/own/libfoo.a *)
+Example example_modifier_hashed :
+  match parse_arguments (fun p => beq p (bs "/w/own/libfoo.a"))
+          [bs "--crate-name"; bs "foo"; bs "src/lib.rs"; bs "--crate-type"; bs "lib"; bs "--emit=link"; bs "--out-dir"; bs "out";
+           bs "-l"; bs "static:+whole-archive=foo"; bs "-L"; bs "native=own"] (bs "/w") with
+  | PROk p => p_staticlibs p = [bs "/w/own/libfoo.a"]
+  | _ => False
+  end.
 Proof. vm_compute. reflexivity. Qed.
 
 Example example_accepted :
